@@ -1256,7 +1256,6 @@ func c10GenAlias(r *vRand) ([6]int, [][]string) {
 	for j := range lim {
 		lim[j] = vPick(r, []int{-1, -1, -1, 128, 128, 0, 1, 2, 3, 5})
 	}
-	linkWrites := os.Getenv("VERIF_C10_LINKWR") == "1" // caller writes to arrays handed to AddLink (retained by reference)
 	kv := func() string { return vHex(vC04GenKey(r, 0)) + "=" + vC04GenVal(r) }
 	var ops [][]string
 	type bufInfo struct {
@@ -1323,7 +1322,7 @@ func c10GenAlias(r *vRand) ([6]int, [][]string) {
 			// the caller reuses its slice: overwrite a cell (inside the length or in the spare capacity)
 			var cand []int
 			for b, bi := range bufs {
-				if bi.cap > 0 && (linkWrites || !bi.linkUsed) {
+				if bi.cap > 0 {
 					cand = append(cand, b)
 				}
 			}
@@ -1332,6 +1331,13 @@ func c10GenAlias(r *vRand) ([6]int, [][]string) {
 				break
 			}
 			b := vPick(r, cand)
+			if r.Intn(3) == 0 { // prefer a slice that was handed to AddLink / WithLinks (F44)
+				for _, c := range cand {
+					if bufs[c].linkUsed {
+						b = c
+					}
+				}
+			}
 			ops = append(ops, []string{"wr", strconv.Itoa(b), strconv.Itoa(r.Intn(bufs[b].cap)), kv()})
 		case x < 30 && nspans < 4:
 			sp()
@@ -1392,5 +1398,151 @@ func TestVerifC10Alias(t *testing.T) {
 	for i := 0; i < n; i++ {
 		lim, ops := c10GenAlias(r)
 		c10AliasLine(out, "rnd", lim, ops)
+	}
+}
+
+// ---------------------------------------------------------------- F45: RecordError appends to the caller's option slice (leg `optsrace`)
+
+// Line: `optsrace <gen> <spare capacity of the option slice> <shared 0|1> <goroutines> => race|norace|race:other|err <mis|same>`
+// G goroutines record errors on DIFFERENT spans (each span only takes its own mutex) passing `opts...` where opts has
+// `spare` unused capacity and is (shared=1) one slice for all goroutines or (shared=0, control) one slice per goroutine.
+// RecordError does `opts = append(opts, WithAttributes(exception.type, exception.message))`: with spare capacity that
+// writes the caller's backing array. Child process, race-instrumented; `mis` = some exported span carries another
+// span's exception.message.
+type c10ORProc struct {
+	mu  sync.Mutex
+	mis bool
+}
+
+func (p *c10ORProc) OnStart(context.Context, ReadWriteSpan) {}
+func (p *c10ORProc) OnEnd(s ReadOnlySpan) {
+	for _, e := range s.Events() {
+		for _, a := range e.Attributes {
+			if string(a.Key) == "exception.message" && a.Value.AsString() != s.Name() {
+				p.mu.Lock()
+				p.mis = true
+				p.mu.Unlock()
+			}
+		}
+	}
+}
+func (p *c10ORProc) Shutdown(context.Context) error   { return nil }
+func (p *c10ORProc) ForceFlush(context.Context) error { return nil }
+
+func TestVerifC10OptsRaceChild(t *testing.T) {
+	spec := os.Getenv("VERIF_C10_OPTSRACE")
+	if spec == "" {
+		t.Skip("child of TestVerifC10OptsRace only")
+	}
+	f := strings.Split(spec, ",")
+	spare, _ := strconv.Atoi(f[0])
+	shared := f[1] == "1"
+	ng, _ := strconv.Atoi(f[2])
+	pp := &c10ORProc{}
+	tp := NewTracerProvider(WithSpanProcessor(pp))
+	defer func() { _ = tp.Shutdown(context.Background()) }()
+	tr := tp.Tracer("verif")
+	mk := func() []trace.EventOption {
+		o := make([]trace.EventOption, 0, 1+spare)
+		return append(o, trace.WithAttributes(attribute.String("component", "db")))
+	}
+	common := mk()
+	start := make(chan struct{})
+	var wg sync.WaitGroup
+	for g := 0; g < ng; g++ {
+		wg.Add(1)
+		go func(g int) {
+			defer wg.Done()
+			opts := common
+			if !shared {
+				opts = mk()
+			}
+			<-start
+			for i := 0; i < 400; i++ {
+				name := "g" + strconv.Itoa(g) + "-" + strconv.Itoa(i)
+				_, s := tr.Start(context.Background(), name)
+				s.RecordError(errors.New(name), opts...)
+				s.End()
+			}
+		}(g)
+	}
+	close(start)
+	wg.Wait()
+	if pp.mis {
+		fmt.Println("VERIF-MISATTRIBUTED")
+	}
+}
+
+func c10OptsRace(spare, shared, ng int) string {
+	cmd := exec.Command(os.Args[0], "-test.run", "^TestVerifC10OptsRaceChild$", "-test.count=1")
+	env := []string{}
+	for _, e := range os.Environ() {
+		if strings.HasPrefix(e, "VERIF_") || strings.HasPrefix(e, "GORACE=") {
+			continue
+		}
+		env = append(env, e)
+	}
+	cmd.Env = append(env, fmt.Sprintf("VERIF_C10_OPTSRACE=%d,%d,%d", spare, shared, ng), "GORACE=halt_on_error=0")
+	type res struct {
+		out []byte
+		err error
+	}
+	ch := make(chan res, 1)
+	go func() { o, err := cmd.CombinedOutput(); ch <- res{o, err} }()
+	var r res
+	select {
+	case r = <-ch:
+	case <-time.After(120 * time.Second):
+		if cmd.Process != nil {
+			_ = cmd.Process.Kill()
+		}
+		<-ch
+		return "err same"
+	}
+	o := string(r.out)
+	mis := "same"
+	if strings.Contains(o, "VERIF-MISATTRIBUTED") {
+		mis = "mis"
+	}
+	switch {
+	case strings.Contains(o, "WARNING: DATA RACE"):
+		if strings.Contains(o, "RecordError") {
+			return "race " + mis
+		}
+		return "race:other " + mis
+	case r.err == nil && strings.Contains(o, "PASS"):
+		return "norace " + mis
+	default:
+		return "err " + mis
+	}
+}
+
+func TestVerifC10OptsRace(t *testing.T) {
+	out := vOpen(t)
+	defer out.Close()
+	line := func(gen string, spare, shared, ng int) {
+		out.Line("optsrace %s %d %d %d => %s", gen, spare, shared, ng, c10OptsRace(spare, shared, ng))
+	}
+	if rp := vReplayLines(); rp != nil {
+		for _, f := range rp {
+			if f[0] != "optsrace" || len(f) < 5 {
+				continue
+			}
+			a, _ := strconv.Atoi(f[2])
+			b, _ := strconv.Atoi(f[3])
+			c, _ := strconv.Atoi(f[4])
+			line(f[1], a, b, c)
+		}
+		return
+	}
+	fixed := [][3]int{{3, 1, 2}, {0, 1, 2}, {3, 0, 2}, {1, 1, 4}, {8, 1, 3}, {2, 0, 4}}
+	r := &vRand{s: vSeed() ^ 0xf45}
+	n := vN(6)
+	for i := 0; i < n; i++ {
+		if i < len(fixed) {
+			line("fixed", fixed[i][0], fixed[i][1], fixed[i][2])
+			continue
+		}
+		line("rnd", r.Intn(5), r.Intn(2), 2+r.Intn(3))
 	}
 }
